@@ -96,6 +96,7 @@ pub fn worker_main() -> ! {
     let stdin = std::io::stdin();
     let mut inp = stdin.lock();
     let out = Arc::new(Mutex::new(std::io::stdout()));
+    let mut case_tx: Option<(std::sync::mpsc::Sender<(Arc<Vec<u8>>, u32, u64)>, std::sync::mpsc::Receiver<()>)> = None;
     loop {
         let mut hdr = [0u8; 16];
         if inp.read_exact(&mut hdr).is_err() {
@@ -109,9 +110,28 @@ pub fn worker_main() -> ! {
             std::process::exit(0);
         }
         let data = Arc::new(data);
-        let out2 = out.clone();
-        let h = std::thread::Builder::new().stack_size(STACK).spawn(move || run_case(data, flags, seed, out2)).expect("spawn case thread");
-        let _ = h.join();
+        // all cases of this worker run on ONE long-lived 2 MiB thread, so that thread-local and
+        // process-wide state carries over from one load to the next (histories of loads)
+        if case_tx.is_none() {
+            let (tx, rx) = std::sync::mpsc::channel::<(Arc<Vec<u8>>, u32, u64)>();
+            let (dtx, drx) = std::sync::mpsc::channel::<()>();
+            let out2 = out.clone();
+            std::thread::Builder::new()
+                .stack_size(STACK)
+                .spawn(move || {
+                    while let Ok((d, fl, sd)) = rx.recv() {
+                        run_case(d, fl, sd, out2.clone());
+                        let _ = dtx.send(());
+                    }
+                })
+                .expect("spawn case thread");
+            case_tx = Some((tx, drx));
+        }
+        let (tx, drx) = case_tx.as_ref().unwrap();
+        if tx.send((data, flags, seed)).is_err() || drx.recv().is_err() {
+            // the case thread is gone (it cannot unwind past run_case; only a fatal error ends it)
+            std::process::exit(4);
+        }
     }
 }
 
